@@ -29,29 +29,58 @@ def squeezeExcess (a : ND K) (unit other : Nat) : ND K :=
   let toSqueeze := (List.range' unit (other - unit)).filter (fun p => t.shape.getD p 0 == 1)
   (t.squeezeAxes toSqueeze).T
 
+/-- the `if broadcast == "pairwise" or broadcast == "pairwise_reversed":` block of
+`utils.matrix_product` (core.py:820-841): insert blocks of length-1 axes so that `@`
+broadcasts the two outer shapes against each other as an outer product.
+`excessᵢ = reshapeᵢ.ndim - large_axes`; precondition of every caller
+(`_assert_geometry_valid`): `reshapeᵢ.ndim ≥ large_axes`, so python's integer subtraction is
+the ℕ-subtraction below. -/
+def pairExpand (mode : Bcast) (reshape1 reshape2 : ND K) (large : Nat) : ND K × ND K :=
+  let excess1 := reshape1.rank - large
+  let excess2 := reshape2.rank - large
+  match mode with
+  | .elementwise => (reshape1, reshape2)
+  | .pairwise =>
+    (if excess1 > 0 then reshape1.expandRange excess1 excess2 else reshape1,
+     if excess2 > 0 then reshape2.expandRange 0 excess1 else reshape2)
+  | .pairwiseReversed =>
+    (if excess1 > 0 then reshape1.expandRange 0 excess2 else reshape1,
+     if excess2 > 0 then reshape2.expandRange excess2 excess1 else reshape2)
+
 /-- `utils.matrix_product(array1, array2, unit_axis_1, unit_axis_2, broadcast)`
-(core.py:755).  Precondition of every caller (`_assert_geometry_valid`): `aᵢ.ndim ≥ uᵢ`,
-so python's `reshape.ndim - large_axes` is the ℕ-subtraction below. -/
+(core.py:755): expand the unit axes, insert the outer-product axes, `@`, squeeze. -/
 def matrixProduct [Add K] [Mul K] [Zero K] (a₁ a₂ : ND K) (u₁ u₂ : Nat) (mode : Bcast) :
     Except String (ND K) :=
   let reshape1 := expandUnitAxes a₁ u₁ u₂
   let reshape2 := expandUnitAxes a₂ u₂ u₁
-  let large := max u₁ u₂
-  let excess1 := reshape1.rank - large
-  let excess2 := reshape2.rank - large
-  let reshape1' :=
-    match mode with
-    | .elementwise => reshape1
-    | .pairwise => if excess1 > 0 then reshape1.expandRange excess1 excess2 else reshape1
-    | .pairwiseReversed => if excess1 > 0 then reshape1.expandRange 0 excess2 else reshape1
-  let reshape2' :=
-    match mode with
-    | .elementwise => reshape2
-    | .pairwise => if excess2 > 0 then reshape2.expandRange 0 excess1 else reshape2
-    | .pairwiseReversed => if excess2 > 0 then reshape2.expandRange excess2 excess1 else reshape2
-  match matmul reshape1' reshape2' with
+  let r := pairExpand mode reshape1 reshape2 (max u₁ u₂)
+  match matmul r.1 r.2 with
   | .error e => .error e
   | .ok product => .ok (if u₁ < u₂ then squeezeExcess product u₁ u₂ else product)
+
+/-! #### specification vocabulary for `matrixProduct` (used by the C04 theorems):
+which outer shape the result has and which unit of each argument feeds result unit `bix` -/
+
+/-- outer (composite) shape of the result in each broadcast mode -/
+def outerShape (mode : Bcast) (o₁ o₂ : List Nat) : Option (List Nat) :=
+  match mode with
+  | .elementwise => bcastShape o₁ o₂
+  | .pairwise => some (o₁ ++ o₂)
+  | .pairwiseReversed => some (o₂ ++ o₁)
+
+/-- index of the unit of `array1` used for result unit `bix` -/
+def unitIx1 (mode : Bcast) (o₁ o₂ bix : List Nat) : List Nat :=
+  match mode with
+  | .elementwise => bcIx o₁ bix
+  | .pairwise => bix.take o₁.length
+  | .pairwiseReversed => bix.drop o₂.length
+
+/-- index of the unit of `array2` used for result unit `bix` -/
+def unitIx2 (mode : Bcast) (o₁ o₂ bix : List Nat) : List Nat :=
+  match mode with
+  | .elementwise => bcIx o₂ bix
+  | .pairwise => bix.drop o₁.length
+  | .pairwiseReversed => bix.take o₂.length
 
 /-- `utils.apply_bilinear(v1, v2, bilinear_form)` (core.py:225), elementwise:
 `matrix_product(matrix_product(expand_dims(v1,-2), form), expand_dims(v2,-1)).squeeze((-1,-2))`
@@ -64,5 +93,9 @@ def applyBilinear [Add K] [Mul K] [Zero K] (v₁ v₂ : ND K) (form : Option (ND
     | some f => matrixProduct e1 f 2 2 .elementwise
   let prod ← matrixProduct intermed (v₂.expandRange v₂.rank 1) 2 2 .elementwise
   pure (prod.squeezeAxes [prod.rank - 1, prod.rank - 2])
+
+/-- iteration over a composite object (`for u in obj`: python's legacy `__getitem__` protocol,
+projective.py:496 `__getitem__`, :502 `__len__`): `obj[0], obj[1], …` -/
+def iterItems (a : ND K) : List (ND K) := (List.range (a.shape.headD 0)).map fun k => a.sub [k]
 
 end GT
